@@ -1,5 +1,15 @@
 package main
 
+// emitAll prints every fact table; each emitter reports what it sees in the sources, no judgement.
 func emitAll(repo string) error {
+	if err := emitLockFacts(repo); err != nil {
+		return err
+	}
+	if err := emitGetterFacts(repo); err != nil {
+		return err
+	}
+	if err := emitCanSkip(repo); err != nil {
+		return err
+	}
 	return nil
 }
